@@ -14,6 +14,8 @@ def obligations(tier):
     obs = [Ob(f"C18.pipe/first={i}", "pipe", "c_entity", {"VF_E1": i}, t, FN_PIPE,
               f"entity statement #{i} + any second entity statement (symbolic) in 4 contexts (alone / after a table / between two tables / before a table - symbolic); "
               "tables use s.ty and ty2 as column types") for i in range(NEN)]
+    obs.append(Ob("C18.group/one-bucket-each", "c13", "c_group2", {"VF_MODE": "sql", "VF_N": 2}, t, ["simple_ddl_parser/output/core.py:Output.group_by_type_result"],
+                  "two entities of any kinds (symbolic), grouped: each entity in exactly the bucket of its kind - databases and tablespaces do not share a list"))
     obs += lex_obs("C18", "c_kw", ["after_create"], tier, "lex")
     obs += lex_obs("C18", "c_name", ["after_dot", "type_after_dot"], tier, "lexname")
     return obs
